@@ -475,6 +475,180 @@ class P:
 '''
 
 
+# ---- C10.yearcontext ------------------------------------------------------------------------------------------
+
+def year_context_eval(idx, cls, fn, consts, years):
+    """interpret get_year_context with the collaborators stubbed: the year regex finds one match per entry of `years`
+    (an entry is the year the extractor reads from that match, the invalid-year sentinel for a match without a year), the
+    end date is not a bare year and no relative word is present.  -> the .year stored on the returned context"""
+    def res(node):
+        if isinstance(node, ast.Attribute) and isinstance(node.value, ast.Name) and node.value.id == 'Constants' and node.attr in consts:
+            return consts[node.attr]
+        raise Undetermined('attribute %s' % ast.unparse(node)[:40])
+
+    def hook(call, args, env):
+        cn = _callee_name(call)
+        if cn == 'finditer':
+            return True, list(years)
+        if cn == 'get_year_from_text' and args:
+            return True, args[0]
+        if cn in ('match', 'search') and isinstance(call.func, ast.Attribute) and ast.unparse(call.func.value).endswith('_regex'):
+            return True, None
+        if cn == 'hasattr':
+            return True, False
+        if cn == 'DateContext':
+            return True, '<context>'
+        return False, None
+
+    ev = MiniEval(idx, cls, res)
+    ev.call_hook = hook
+    env = {a.arg: '<%s>' % a.arg for a in fn.args.args}
+    try:
+        ev.block(fn.body, env)
+    except _ReturnSignal:
+        pass
+    except Undetermined as e:
+        raise AnalysisError('%s.%s cannot be interpreted: %s' % (cls.name, fn.name, e))
+    ys = [v for k, v in env.items() if k.endswith('.year')]
+    if len(ys) != 1:
+        raise AnalysisError('%s.%s: the year stored on the returned context was not found' % (cls.name, fn.name))
+    return ys[0]
+
+
+# ---- C10.span ----------------------------------------------------------------------------------------------------
+
+def _parse_pt(text):
+    """minutes denoted by the PT..H..M(..S) tail of a TIMEX, or None when it is not of that form"""
+    import re
+    m = re.search(r'PT(?:(\d+(?:\.\d+)?)H)?(?:(\d+(?:\.\d+)?)M)?(?:(\d+(?:\.\d+)?)S)?\)?$', text)
+    if not m:
+        return None
+    return float(m.group(1) or 0) * 60 + float(m.group(2) or 0) + float(m.group(3) or 0) / 60, m.group(2)
+
+
+def span_probe():
+    return [(h, m) for h in range(24) for m in (0, 1, 15, 30, 45, 59)]
+
+
+def span_sites(idx):
+    """every function of the date-time package that writes a literal 'PT' into a string:
+    [(mod, cls, fn, kind, info)] kind: 'datetime-diff' (slice between the subtraction of two datetimes and the TIMEX),
+    'time-fields' (function of two time results subtracting their fields), 'other' (number+unit, hour numbers, seconds)"""
+    out = []
+    for mod, cls, fn in idx.functions():
+        if not mod.name.startswith(DT) or cls is None:
+            continue
+        pts = [n for n in ast.walk(fn) if isinstance(n, ast.JoinedStr)
+               and any(isinstance(v, ast.Constant) and isinstance(v.value, str) and 'PT' in v.value for v in n.values)]
+        if not pts:
+            continue
+        dt_names = set()
+        for n in ast.walk(fn):
+            tgt = n.targets[0] if isinstance(n, ast.Assign) and len(n.targets) == 1 else (n.target if isinstance(n, ast.AnnAssign) and n.value is not None else None)
+            if isinstance(tgt, ast.Name):
+                txt = ast.unparse(n.value)
+                if '.future_value' in txt or '.past_value' in txt or 'datetime(' in txt:
+                    dt_names.add(tgt.id)
+        subs = [n for n in ast.walk(fn) if isinstance(n, ast.BinOp) and isinstance(n.op, ast.Sub)]
+        dd = [n for n in subs if isinstance(n.left, ast.Name) and isinstance(n.right, ast.Name)
+              and n.left.id in dt_names and n.right.id in dt_names]
+        tf = [n for n in subs if isinstance(n.left, ast.Attribute) and isinstance(n.right, ast.Attribute)
+              and n.left.attr == n.right.attr == 'hour' and isinstance(n.left.value, ast.Name) and isinstance(n.right.value, ast.Name)]
+        params = [a.arg for a in fn.args.args if a.arg != 'self']
+        if dd:
+            # the subtraction that feeds the TIMEX: the closest one before the 'PT' string
+            pt_line = min(n.lineno for n in pts)
+            before = [n for n in dd if n.lineno <= pt_line] or dd
+            pick = max(before, key=lambda n: n.lineno)
+            out.append((mod, cls, fn, 'datetime-diff', (pick.left.id, pick.right.id, pick.lineno)))
+        elif tf and tf[0].left.value.id in params and tf[0].right.value.id in params:
+            out.append((mod, cls, fn, 'time-fields', (tf[0].left.value.id, tf[0].right.value.id)))
+        else:
+            out.append((mod, cls, fn, 'other', None))
+    return out
+
+
+def span_eval_slice(idx, cls, fn, end_name, begin_name, begin, end, consts):
+    """interpret the top-level statements from the first one that subtracts the two datetimes to the one that writes the
+    'PT' TIMEX -> the TIMEX text"""
+    def has_sub(st):
+        return any(isinstance(n, ast.BinOp) and isinstance(n.op, ast.Sub) and _is_name(n.left, end_name) and _is_name(n.right, begin_name)
+                   for n in ast.walk(st))
+
+    def has_pt(st):
+        return any(isinstance(n, ast.JoinedStr) and any(isinstance(v, ast.Constant) and isinstance(v.value, str) and 'PT' in v.value
+                                                         for v in n.values) for n in ast.walk(st))
+    i1 = next((i for i, st in enumerate(fn.body) if has_pt(st) and any(has_sub(s2) for s2 in fn.body[:i + 1])), None)
+
+    def rebinds(st):
+        return any(isinstance(n, ast.Name) and isinstance(n.ctx, ast.Store) and n.id in (end_name, begin_name) for n in ast.walk(st))
+    i0 = None
+    if i1 is not None:
+        last_bind = max((i for i, st in enumerate(fn.body[:i1 + 1]) if rebinds(st)), default=-1)
+        i0 = next((i for i in range(last_bind + 1, i1 + 1) if has_sub(fn.body[i])), None)
+    if i0 is None or i1 is None:
+        raise AnalysisError('%s.%s: the span computation is not a run of top-level statements' % (cls.name, fn.name))
+    stmts = fn.body[i0:i1 + 1]
+    assigned = set()
+    for st in stmts:
+        for n in ast.walk(st):
+            if isinstance(n, ast.Name) and isinstance(n.ctx, ast.Store):
+                assigned.add(n.id)
+    env = {begin_name: begin, end_name: end, 'year': begin.year, 'month': begin.month, 'day': begin.day}
+    for st in stmts:
+        for n in ast.walk(st):
+            if isinstance(n, ast.Name) and isinstance(n.ctx, ast.Load) and n.id not in env and n.id not in assigned \
+                    and n.id not in ('datetime', 'timedelta', 'divmod', 'int', 'float', 'round', 'str', 'QueryProcessor', 'Constants', 'self'):
+                env[n.id] = '?'
+
+    def res(node):
+        if isinstance(node, ast.Attribute) and isinstance(node.value, ast.Name):
+            if node.value.id == 'Constants' and node.attr in consts:
+                return consts[node.attr]
+            if env.get(node.value.id) == '?' or node.value.id not in env:
+                return '?'           # pieces of the endpoints' own TIMEX: irrelevant for the duration tail
+        raise Undetermined('attribute %s' % ast.unparse(node)[:40])
+
+    ev = MiniEval(idx, cls, res)
+    try:
+        ev.block(stmts, env)
+    except _ReturnSignal:
+        pass
+    except Undetermined as e:
+        raise AnalysisError('%s.%s: span computation cannot be interpreted: %s' % (cls.name, fn.name, e))
+    tx = [v for k, v in env.items() if k.endswith('.timex') and isinstance(v, str)]
+    if len(tx) != 1:
+        raise AnalysisError('%s.%s: the TIMEX written by the span computation was not found' % (cls.name, fn.name))
+    return tx[0]
+
+
+def span_eval_function(idx, cls, fn, begin, end):
+    def hook(call, args, env):
+        if _callee_name(call) == 'sanitize_time_result' and args:
+            return True, args[0]
+        return False, None
+    ev = MiniEval(idx, cls, lambda node: (_ for _ in ()).throw(Undetermined('attribute %s' % ast.unparse(node)[:40])))
+    ev.call_hook = hook
+    params = [a.arg for a in fn.args.args if a.arg != 'self']
+    try:
+        return ev.call(fn, [begin, end][:len(params)])
+    except Undetermined as e:
+        raise AnalysisError('%s.%s cannot be interpreted: %s' % (cls.name, fn.name, e))
+
+
+_SPAN_CONTROL = '''
+class P:
+    def merge_two_time_points(self, source, reference):
+        begin_time = pr1.value.future_value
+        end_time = pr2.value.future_value
+        hours, remainder = divmod(int((end_time - begin_time).total_seconds()), 3600)
+        minutes = remainder % 60
+        hours_str = f'{hours}H' if hours > 0 else ''
+        minutes_str = f'{minutes}M' if 0 < minutes < 60 else ''
+        result.timex = f'({pr1.timex_str},{pr2.timex_str},PT{hours_str}{minutes_str})'
+'''
+
+
 def reference_form(sp):
     t = "f\"P{('T' if self.is_less_than_day(self.config.unit_map[%s]) else '')}{num}{self.config.unit_map[%s][0]}\"" % (sp, sp)
     t = ast.unparse(ast.parse(t, mode='eval').body)
@@ -534,6 +708,10 @@ def run(chk):
              floor=7, control=True)
     chk.rule('C10.ampm', "time ranges whose endpoints both carry am/pm: 12am -> 0, 1..11am unchanged, 1..11pm -> +12, 12pm unchanged (tabulated, both endpoints)",
              floor=4, control=True)
+    chk.rule('C10.yearcontext', "get_year_context: the context year is the common year of the mentioned years, the invalid-year sentinel when two "
+             "differ or none is mentioned (tabulated with stubbed year extraction)", floor=8, control=True)
+    chk.rule('C10.span', "hand-assembled (start,end,PT..H..M) durations denote end - start (tabulated for h 0..23 x m in 0,1,15,30,45,59)",
+             floor=3, control=True)
     chk.rule('C10.timespan', 'luis_time_span / period unit count equal end - start; type->suffix table', floor=8, control=True)
     chk.assume('a culture is served by the unique DurationParserConfiguration subclass of its package')
 
@@ -808,6 +986,100 @@ def run_base(chk, idx, consts):
     cfn = _FakeCls(ast.parse(_AMPM_CONTROL).body[0])
     ctabs, _ = ampm_tabulate(idx, tp, cfn.methods['parse_specific_time'])
     chk.control('C10.ampm', ctabs[('begin', 'am')][12] != 0)
+
+    # ---- C10.yearcontext
+    dpp = idx.cls(DT + 'base_dateperiod.BaseDatePeriodParser')
+    gyc = dpp.methods.get('get_year_context')
+    dctx = idx.cls(DT + 'utilities.DateContext')
+    ise = dctx.methods.get('is_empty')
+    if gyc is None or ise is None:
+        raise AnalysisError('anchor vanished: BaseDatePeriodParser.get_year_context / DateContext.is_empty')
+    chk.consulted(dpp.mod.path)
+    # the sentinel the consumers compare with: DateContext.is_empty() must hold for it and fail for a real year
+    INV = consts.get('INVALID_YEAR')
+
+    def empty_for(v):
+        def r2(node):
+            if ast.unparse(node) == 'self.year':
+                return v
+            if isinstance(node, ast.Attribute) and isinstance(node.value, ast.Name) and node.value.id == 'Constants' and node.attr in consts:
+                return consts[node.attr]
+            raise Undetermined('attribute')
+        try:
+            return bool(MiniEval(idx, dctx, r2).call(ise, []))
+        except Undetermined as e:
+            raise AnalysisError('DateContext.is_empty cannot be interpreted: %s' % e)
+    if not isinstance(INV, int) or not empty_for(INV) or empty_for(2018):
+        raise AnalysisError('DateContext.is_empty no longer identifies Constants.INVALID_YEAR (%r) as "no context year"' % INV)
+    Y1, Y2 = 2018, 2019
+    import itertools
+    configs = [()] + [c for n in (1, 2) for c in itertools.product((Y1, Y2), repeat=n)] + \
+              [(INV,), (INV, Y2), (Y1, INV), (Y1, INV, Y1), (Y1, INV, Y2), (Y1, Y1, Y1), (Y2, Y2, Y2)]
+
+    def want_ctx(cfg):
+        ys = {y for y in cfg if y != INV}
+        return next(iter(ys)) if len(ys) == 1 else INV
+
+    def show(cfg):
+        return '(%s)' % ', '.join('none' if y == INV else str(y) for y in cfg)
+    for cfg in configs:
+        got = year_context_eval(idx, dpp, gyc, consts, cfg)
+        w = want_ctx(cfg)
+        chk.judge(got == w, 'C10.yearcontext', dpp.mod.path, 'BaseDatePeriodParser.get_year_context%s' % show(cfg),
+                  'years %s -> %s' % (show(cfg), 'no context' if got == INV else got),
+                  "get_year_context: a range text mentioning the years %s yields the context year %s, expected %s - both endpoints of "
+                  "'from A to B' are rewritten to the context year" % (show(cfg), 'none' if got == INV else got, 'none' if w == INV else w),
+                  gyc.lineno)
+    for cfg in itertools.product((Y1, Y2), repeat=3):
+        if len(set(cfg)) > 1:
+            got = year_context_eval(idx, dpp, gyc, consts, cfg)
+            if got != INV:
+                chk.observe('get_year_context: three year mentions %s revive the context year %s after two of them differed (the C# original '
+                            'breaks out of the loop); no extracted date-period text carries three years, not a verdict' % (show(cfg), got))
+                break
+    cgy = _FakeCls(ast.parse("class P:\n    def get_year_context(self, config, start_date_str, end_date_str, text):\n"
+                             "        context_year = Constants.INVALID_YEAR\n"
+                             "        for match in config.year_regex.finditer(text):\n"
+                             "            year = config.date_extractor.get_year_from_text(match)\n"
+                             "            if year == Constants.INVALID_YEAR:\n                continue\n"
+                             "            if context_year != Constants.INVALID_YEAR and context_year != year:\n                break\n"
+                             "            context_year = year\n"
+                             "        result = DateContext()\n        result.year = context_year\n        return result\n").body[0])
+    chk.control('C10.yearcontext', year_context_eval(idx, dpp, cgy.methods['get_year_context'], consts, (Y1, Y2)) != INV)
+
+    # ---- C10.span
+    sites = span_sites(idx)
+    verdict_sites = 0
+    for mod, cls, fn, kind, info in sites:
+        cons = '%s.%s' % (cls.name, fn.name)
+        chk.consulted(mod.path)
+        if kind == 'other':
+            chk.exempt('C10.span', mod.path, cons, "writes a 'PT' duration that is not computed from two time points (number+unit, hour numbers, "
+                       "seconds count)", 'not a two-time-point span', fn.lineno)
+            continue
+        verdict_sites += 1
+        wrong = []
+        base = _dt.datetime(2016, 11, 7, 6, 40, 0)      # non-zero minutes: exercises the minute borrow of field-wise subtractions
+        for h, m in span_probe():
+            end = base + _dt.timedelta(hours=h, minutes=m)
+            if kind == 'datetime-diff':
+                tx = span_eval_slice(idx, cls, fn, info[0], info[1], base, end, consts)
+            else:
+                tx = span_eval_function(idx, cls, fn, base, end)
+            parsed = _parse_pt(tx) if isinstance(tx, str) else None
+            if parsed is None or abs(parsed[0] - (h * 60 + m)) > 1e-9 or (parsed[1] is not None and float(parsed[1]) >= 60):
+                wrong.append('%dh%02dm -> %s' % (h, m, tx if not isinstance(tx, str) else tx[tx.rfind('PT'):]))
+        chk.judge(not wrong, 'C10.span', mod.path, cons, '%d probe spans agree' % len(span_probe()) if not wrong else
+                  '%d of %d differ; first: %s' % (len(wrong), len(span_probe()), '; '.join(wrong[:3])),
+                  '%s: the duration part of the (start,end,duration) TIMEX does not equal end - start: %s (%d of %d probe spans differ)'
+                  % (cons, '; '.join(wrong[:4]), len(wrong), len(span_probe())), fn.lineno)
+    if verdict_sites < 3:
+        raise AnalysisError('only %d hand-assembled two-time-point durations found (expected merge_two_time_points, parse_specific_time, '
+                            'the Chinese build_span)' % verdict_sites)
+    cs = _FakeCls(ast.parse(_SPAN_CONTROL).body[0])
+    ctx_ = span_eval_slice(idx, tp, cs.methods['merge_two_time_points'], 'end_time', 'begin_time', _dt.datetime(2016, 11, 7, 12, 0),
+                           _dt.datetime(2016, 11, 7, 16, 30), consts)
+    chk.control('C10.span', _parse_pt(ctx_)[0] != 270)
 
     # ---- C10.timespan
     fu = idx.cls(DT + 'utilities.DateTimeFormatUtil')
